@@ -10,7 +10,7 @@ from sqlalchemy.sql import dml as sa_dml
 from sqlalchemy import types as sa_types
 
 from pyvc.core import Undecided
-from pyvc.values import (Sym, Obj, VList, VSet, SList, SSet, SMap, Native,
+from pyvc.values import (Sym, Obj, VList, VDict, VSet, SList, SSet, SMap, Native,
                          StrSort, sort_of)
 from pyvc import ops
 from pyvc.ops import to_term, from_term
@@ -35,6 +35,20 @@ def col_type(col):
     if isinstance(t, (sa_types.String, sa_types.Unicode)):
         return 'str'
     return None
+
+
+def _mentions_var(t, v):
+    seen = set()
+    stack = [t]
+    while stack:
+        x = stack.pop()
+        if x.get_id() in seen:
+            continue
+        seen.add(x.get_id())
+        if x.eq(v):
+            return True
+        stack.extend(x.children())
+    return False
 
 
 class Table(object):
@@ -529,6 +543,92 @@ class GhostDB(object):
             hook(vals, key)
         return ExecResult(rowcount=1,
                           lastrowid=from_term(key, 'int') if table.kty == 'int' else None)
+
+    def bulk_insert(self, table_name, rows):
+        """INSERT of a sequence of parameter dicts (executemany) into a table
+        with an autoincrement key: one fresh row per element; with the
+        UNIQUE constraints enabled for the table, a value that exists already
+        or occurs twice raises DBDuplicateEntry and inserts nothing."""
+        I = self.I
+        table = self.tables[table_name]
+        if table.kty != 'int':
+            raise Undecided('bulk insert into %s' % table_name)
+        seq = I.loop_sequence(rows, 'bulk') if not hasattr(rows, 'sequence') \
+            else rows.sequence(I, 'bulk')
+        n = seq.len if not isinstance(seq.len, int) else z3.IntVal(seq.len)
+        q = z3.Int(I.ex.fresh_name('q.bulk'))
+        row = seq.element(I, q)
+        if isinstance(row, tuple):
+            row = row[-1]
+        if not isinstance(row, VDict):
+            raise Undecided('bulk insert of %r' % (row,))
+        vals = {}
+        for cn, v in row.items.items():
+            if cn in IGNORED_COLUMNS:
+                continue
+            if cn in table.keycols:
+                raise Undecided('bulk insert with explicit keys')
+            vals[cn] = to_term(v, table.cols[cn][0])
+        base = I.ex.fresh_name('bulk.' + table_name)
+        newid = z3.Function(base + '.id', z3.IntSort(), z3.IntSort())
+        qof = z3.Function(base + '.q', z3.IntSort(), z3.IntSort())
+        k = z3.Int('k!' + base)
+        q2 = z3.Int('q2!' + base)
+        inr = z3.And(q >= 0, q < n)
+        if table_name in I.registry.get('unique_checks', ()):
+            import sqlalchemy as _sa
+            from oslo_db import exception as db_exc
+            for c in table.sa.constraints:
+                if isinstance(c, _sa.UniqueConstraint) and len(c.columns) == 1:
+                    cn = list(c.columns)[0].name
+                    if cn not in vals:
+                        continue
+                    if I.ex.branch(z3.Bool(I.ex.fresh_name('dup.' + cn))):
+                        # some inserted value exists already or occurs twice
+                        wq = z3.Int(I.ex.fresh_name('dup.q'))
+                        wk = z3.Int(I.ex.fresh_name('dup.k'))
+                        wq2 = z3.Int(I.ex.fresh_name('dup.q2'))
+                        vq = z3.substitute(vals[cn], (q, wq))
+                        I.ex.assume(z3.And(wq >= 0, wq < n, z3.Or(
+                            z3.And(z3.Select(table.exists, wk),
+                                   z3.Select(table.data[cn], wk) == vq),
+                            z3.And(wq2 >= 0, wq2 < n, wq2 != wq,
+                                   z3.substitute(vals[cn], (q, wq2)) == vq))))
+                        I.raise_(db_exc.DBDuplicateEntry, columns=VList([cn]))
+                    I.ex.hyp(ops.forall([q, k], z3.Implies(
+                        z3.And(inr, z3.Select(table.exists, k)),
+                        z3.Select(table.data[cn], k) != vals[cn]),
+                        patterns=[z3.MultiPattern(z3.Select(table.exists, k),
+                                                  vals[cn])]
+                        if _mentions_var(vals[cn], q) else None))
+                    v2 = z3.substitute(vals[cn], (q, q2))
+                    I.ex.hyp(ops.forall([q, q2], z3.Implies(
+                        z3.And(inr, q2 >= 0, q2 < n, q != q2),
+                        vals[cn] != v2)))
+        I.ex.hyp(ops.forall([q], z3.Implies(inr, z3.And(
+            newid(q) > 0, z3.Not(z3.Select(table.exists, newid(q))),
+            qof(newid(q)) == q)), patterns=[newid(q)]))
+        ins = z3.And(qof(k) >= 0, qof(k) < n, newid(qof(k)) == k)
+        new = table.clone()
+        new.exists = z3.Lambda([k], z3.Or(z3.Select(table.exists, k), ins))
+        for cn in table.data:
+            if cn in vals:
+                new.data[cn] = z3.Lambda([k], z3.If(
+                    ins, z3.substitute(vals[cn], (q, qof(k))),
+                    z3.Select(table.data[cn], k)))
+                if cn in table.null:
+                    new.null[cn] = z3.Lambda([k], z3.If(
+                        ins, z3.BoolVal(False), z3.Select(table.null[cn], k)))
+            elif cn in table.null:
+                new.null[cn] = z3.Lambda([k], z3.If(
+                    ins, z3.BoolVal(self._column_default(table, cn) is None),
+                    z3.Select(table.null[cn], k)))
+        self.tables[table_name] = new
+        self.writes.append((table_name, 'insert', tuple(vals)))
+        I.event('db.write', table_name, 'insert', self._tid())
+        I.ghost['bulk.' + table_name] = (newid, qof, n, seq)
+        I.ghost['bulk.rows.' + table_name] = rows
+        return ExecResult(rowcount=from_term(n, 'int'))
 
     def _unique_constraints(self, table, vals):
         """single-column UNIQUE constraints of the real table metadata: an
